@@ -417,7 +417,8 @@ def obs_impl(o):
     else:
         outcome = (oc,)
     return {"outcome": outcome, "trace": o.get("trace") or [], "stderr": norm_stderr(o.get("stderr") or []),
-            "values": o.get("values") or {}, "sbu": o.get("sbu") or {}, "logs": o.get("logs") or {}}
+            "values": o.get("values") or {}, "sbu": o.get("sbu") or {}, "logs": o.get("logs") or {},
+            "errline": o.get("errline")}
 
 
 def obs_model(m):
